@@ -121,7 +121,7 @@ def qcfg():
 
 
 def run_mq(repo, layers, qconfig, activation_bits=4, fold=None,
-           transfer=False, src_layers=None, q_layers=None):
+           transfer=False, src_layers=None, q_layers=None, **mq_kwargs):
   um = repo.module(UM)
   if "model_quantize" not in um.functions:
     raise AnalysisError("anchor-missing function utils.model_quantize")
@@ -150,9 +150,10 @@ def run_mq(repo, layers, qconfig, activation_bits=4, fold=None,
   pe.opaque_ext = True
   f = pe.lookup_global("model_quantize", um)
   custom = {"user": "object"}
-  pe.call(f, [model, qconfig, activation_bits],
-          {"custom_objects": custom, "transfer_weights": transfer,
-           "enable_bn_folding": bool(fold)})
+  kwargs = {"custom_objects": custom, "transfer_weights": transfer,
+            "enable_bn_folding": bool(fold)}
+  kwargs.update(mq_kwargs)
+  pe.call(f, [model, qconfig, activation_bits], kwargs)
   return captured.get("jm"), custom, calls
 
 
@@ -309,6 +310,55 @@ def run(rep, repo, tier):
                 "(%s) than alone: %r" % (
                     name, lbl, _diff(alone, got) if got is not None
                     else "missing"), loc=loc, instance="%s/%s" % (name, lbl))
+
+  # the same for the Activation arm with sparse dictionaries (per-name
+  # entries only / only the backup class entry), both preferences: what an
+  # Activation layer becomes must not depend on the Activation layers that
+  # were converted before it
+  acts = [L("Activation", "act_a", activation="relu"),
+          L("Activation", "act_b", activation="relu"),
+          L("Activation", "act_c", activation="tanh"),
+          L("Activation", "act_d", activation="relu")]
+  for prefer in (False, True):
+    for dname, qd in (
+        ("per-name entry only", {"act_b": "quantized_relu(3)"}),
+        ("backup class entry and a per-name entry", {
+            # a QAdaptiveActivation entry must carry the total bits
+            ("QActivation" if prefer else "QAdaptiveActivation"): {
+                "relu": "quantized_relu(6)"},
+            "act_d": "quantized_relu(3)"})):
+      alone_a = {}
+      try:
+        for lyr in acts:
+          jm1, _, _ = run_mq(repo, [_copy.deepcopy(lyr)],
+                             _copy.deepcopy(qd),
+                             prefer_qadaptiveactivation=prefer)
+          alone_a[lyr["config"]["name"]] = by_name(jm1)[
+              lyr["config"]["name"]]
+        for order, lbl in ((list(acts), "model order"),
+                           (list(reversed(acts)), "reversed order")):
+          jm_all, _, _ = run_mq(repo, _copy.deepcopy(order),
+                                _copy.deepcopy(qd),
+                                prefer_qadaptiveactivation=prefer)
+          tog = by_name(jm_all)
+          for name, alone in sorted(alone_a.items()):
+            got = tog.get(name)
+            inst = "%s/%s/%s/prefer_qadaptiveactivation=%s" % (
+                name, lbl, dname, prefer)
+            rep.check(got is not None and norm(got) == norm(alone), "R1",
+                      unit, "conversion-depends-on-other-layers:Activation",
+                      "layer %s (%s, %s, prefer_qadaptiveactivation=%s) "
+                      "becomes %s %r inside the model but %s %r alone" % (
+                          name, lbl, dname, prefer,
+                          got and got["class_name"],
+                          got and got["config"].get("activation"),
+                          alone["class_name"],
+                          alone["config"].get("activation")), loc=loc,
+                      instance=inst)
+      except PyRaise as e:
+        rep.fail("R6", unit, "raises:Activation:%s" % e.exc_name,
+                 "model_quantize raises %s on Activation layers with %s" %
+                 (e, dname), loc=loc)
 
   def expect(name, cls, **keys):
     l = converted.get(name)
